@@ -1,6 +1,6 @@
 """C03 — decoders accept every valid encoding of a value, not only the library's own."""
 import collections, re
-from .. import build, core, genmod, bundle, gfind, bervar, sexp
+from .. import build, core, genmod, bundle, gfind, bervar, sexp, c03_oer
 from . import c01, c02
 
 def xer_variants(text, rng, count):
@@ -33,6 +33,13 @@ def xer_variants(text, rng, count):
 def run(ctx):
     ctx.lean()
     gfind.replay_witnesses(ctx)
+    # OER / UPER: valid encodings that are not the library's own (Lean variant generators L2.OerVar / L2.UperVar)
+    import time as _t; _t0 = _t.time()
+    vacc = c03_oer.Acc(ctx)
+    c03_oer.audit_once(ctx)
+    c03_oer.replay_proposed(ctx)
+    vacc.seconds += _t.time() - _t0
+    c03_oer.run_fixed(ctx, vacc)
     nb = 4 if ctx.quick else 30
     nvals = 5 if ctx.quick else 12
     nmix = 3 if ctx.quick else 12
@@ -90,14 +97,19 @@ def run(ctx):
                     if not agree: kdis.append((txt, n, l, o, mres, vname))
             if why: fails.append((txt, n, l, o, why, syn, vname))
             else: ctx.count_nontrivial((syn, vname, hash(l)))
-        b.cleanup()
+        try: c03_oer.run_generated(ctx, m, exe, vacc)
+        finally: b.cleanup()
     ctx.cov["evaluations"] += stats["cases"]
     ctx.cov["distribution"] = dict(stats)
     ctx.cov["predicate"]["variants"] = {"cases": stats["cases"], "failures": len(fails)}
     ctx.cov["correspondence"]["l2-ber-variants"] = {"agree": stats["k_agree"], "disagree": stats["k_disagree"]}
+    c03_oer.finish(ctx, vacc)
     ctx.cov["rule"] = ("BER variants of C's DER output (long-form / zero-padded lengths, indefinite lengths, constructed and nested constructed "
                        "strings, SET / SET OF member permutations, BOOLEAN TRUE as any non-zero octet, random mixes) and XER variants "
-                       "(whitespace, newlines, comments between elements): decode rc OK, consumed all, value equal, DER re-encoding identical")
+                       "(whitespace, newlines, comments between elements); OER variants of the Lean reference encoder (long-form / zero-padded length "
+                       "determinants, ENUMERATED long form, BOOLEAN TRUE as 0x01..0xFE, SET OF order, shorter / longer extension presence bitmaps "
+                       "with unknown additions absent or present) and UPER variants (shorter / longer extension bitmaps, unknown additions to "
+                       "skip): decode rc OK, consumed all, value equal, DER re-encoding identical")
     sig = collections.Counter(); first = {}
     for f in fails:
         key = (f[5], re.sub(r"\d+$", "", f[6]), f[4][:60]); sig[key] += 1; first.setdefault(key, f)
